@@ -171,6 +171,24 @@ pub fn cfg_with_borrowed<R>(f: impl FnOnce() -> R) -> Option<R> {
     rust_cc::config::config(|_c| f()).ok()
 }
 
+/// Replaces the whole configuration (not through the setters).
+#[cfg(feature = "auto")]
+pub fn cfg_assign(new: rust_cc::config::Config) -> CfgAccess {
+    match rust_cc::config::config(|c| *c = new) {
+        Ok(()) => CfgAccess::Ok,
+        Err(rust_cc::config::ConfigAccessError::ConcurrentAccessError) => CfgAccess::Busy,
+        Err(_) => CfgAccess::Gone,
+    }
+}
+#[cfg(feature = "auto")]
+pub fn cfg_clone() -> Option<rust_cc::config::Config> {
+    rust_cc::config::config(|c| c.clone()).ok()
+}
+#[cfg(feature = "auto")]
+pub type SavedConfig = rust_cc::config::Config;
+#[cfg(not(feature = "auto"))]
+pub type SavedConfig = ();
+
 #[cfg(not(feature = "auto"))]
 pub fn cfg_set_auto(_v: bool) -> CfgAccess {
     CfgAccess::NoFeature
